@@ -53,6 +53,7 @@ INCLUDE = [
     "streaming/topics/partitions.rs", "streaming/topics/segments.rs",
     "streaming/mod.rs",
     "compat/mod.rs", "compat/index_rebuilding/mod.rs", "compat/index_rebuilding/index_rebuilder.rs",
+    "state/mod.rs", "state/file.rs", "state/entry.rs", "state/command.rs", "state/models.rs",
 ]
 # hand-written stand-ins (pure plumbing that refers to parts of the server outside the translated set)
 HANDWRITTEN = {
@@ -64,6 +65,7 @@ TWIN_PREFIXES = [
     "streaming::partitions", "streaming::persistence", "streaming::segments", "streaming::utils",
     "streaming::local_sizeable", "streaming::polling_consumer", "streaming::storage", "streaming::topics",
     "compat::index_rebuilding",
+    "state::file", "state::entry", "state::command", "state::models",
 ]
 MODEL_RENAMES = [
     ("iggy::verif_model::fs", "iggy::verif_model::fs_sync"),
@@ -165,6 +167,10 @@ def main():
         if rel.endswith("mod.rs"):
             src = fix_mod_rs(rel, src)
         src = rewrite_paths(deasync(src))
+        if rel.startswith("state/"):
+            # items of the state module root (trait State, StateEntry re-exports, COMPONENT)
+            src = re.sub(r"\bcrate::state::\{", "crate::verif::sync::state::{", src)
+            src = re.sub(r"\bcrate::state::(State|StateKind|COMPONENT)\b", r"crate::verif::sync::state::\1", src)
         hdr = "// GENERATED by /verif/tools/deasync.py from server/src/%s — do not edit\n" % rel
         write_if_changed(os.path.join(OUT, rel), hdr + src)
         produced.add(rel)
@@ -174,7 +180,7 @@ def main():
     write_if_changed(os.path.join(OUT, "mod.rs"),
                      "// GENERATED: root of the de-asynced twin tree (see /verif/tools/deasync.py)\n"
                      "#![allow(dead_code, unused_imports, unused_variables, unused_mut, clippy::all)]\n"
-                     "pub mod compat;\npub mod streaming;\n")
+                     "pub mod compat;\npub mod state;\npub mod streaming;\n")
     # remove stale files
     for dp, _, fs in os.walk(OUT):
         for f in fs:
